@@ -291,7 +291,12 @@ def apply_op(o, L, cls, name, kk, v, kk2, v2, kind, nv):
         return None, L + [(kk, v)]
     if name == 'addlist':
         vals = [v, v2][:nv]
-        o.addlist(kk, container(kind, vals))
+        arg = container(kind, vals)
+        o.addlist(kk, arg)
+        if kind == 0:
+            # the caller goes on using its list: the mapping must not follow (no aliasing of the argument)
+            arg.append('late value')
+            arg[0:1] = ['changed value']
         return None, L + [(kk, x) for x in vals]
     if name == 'setitem':
         o[kk] = v
@@ -325,6 +330,13 @@ def apply_op(o, L, cls, name, kk, v, kk2, v2, kind, nv):
             o.update(arg)
         if name == 'update_omd' and not peq(arg.items(multi=True), pairs):
             return 'update_mutated_argument', L
+        # the caller goes on using its argument afterwards
+        if isinstance(arg, list):
+            arg.append(('late key', 'late value'))
+        elif isinstance(arg, dict) and not isinstance(arg, cls):
+            arg['late key'] = 'late value'
+        elif isinstance(arg, cls):
+            arg.add('late key', 'late value')
         return None, m_update(L, pairs)
     if name == 'update_kw':
         o.update([(kk, v)], kwa=v2)
